@@ -27,6 +27,10 @@ pub struct Delivery {
     pub pay: Option<PayD>,
     /// structure-aware wire tampering of the serialised record value (see wire.rs)
     pub tamper: Option<Tamper>,
+    /// replace the record by a well-formed one of this kind whose value is `MAX_PACKET_SIZE + delta` bytes long (big.rs)
+    pub big: Option<i64>,
+    /// the `big` op's kind word (chunk chunkp pad padp junk junkp)
+    pub big_kind: String,
 }
 
 #[derive(Clone, Debug)]
@@ -86,6 +90,8 @@ pub fn parse_delivery(ws: &[&str]) -> Option<Delivery> {
         content: parse_content(ws[3])?,
         pay: parse_pay(ws[4])?,
         tamper: None,
+        big: None,
+        big_kind: String::new(),
     })
 }
 
@@ -136,6 +142,8 @@ pub fn classify(e: &VerifNodeError) -> String {
                 "noTx"
             } else if m.contains("claimed to be existing locally was not found") {
                 "regNotFound"
+            } else if m.starts_with("Record too large") {
+                "tooLarge"
             } else {
                 "invalidRequest"
             }
@@ -177,6 +185,8 @@ pub struct Inflight {
     pub puts: Vec<(RecordKey, Record, Option<Record>)>,
     /// number of store reads answered so far
     pub reads: usize,
+    /// a `GetLocalRecord` of this validation was served a record (the key was held when it read)
+    pub got_local: bool,
 }
 
 pub struct World {
@@ -243,8 +253,32 @@ impl World {
                 g.answers.insert(*h, (*v, *a));
             }
         }
-        let first_hash = built.as_ref().and_then(|b| b.chain.first().map(|c| c.0));
+        let mut first_hash = built.as_ref().and_then(|b| b.chain.first().map(|c| c.0));
         let mut record = build_record(&d.kind, d.rk, &d.content, built.as_ref(), d.client);
+        if let Some(delta) = d.big {
+            // same delivery, but the content is as large as asked for (the payment is rebuilt for its address)
+            let target = (crate::big::LIMIT as i64 + delta).max(0) as usize;
+            let (salt, stub, payd) = (self.salt, self.stub.clone(), d.pay.clone());
+            let mut last_first = None;
+            let mut pay_for = |x: [u8; 32]| {
+                let b = payd.as_ref().map(|p| build_pay(p, x, salt));
+                if let Some(b) = &b {
+                    let mut g = stub.state.lock().expect("stub");
+                    for (h, v, a) in &b.chain {
+                        g.answers.insert(*h, (*v, *a));
+                    }
+                    last_first = b.chain.first().map(|c| c.0);
+                }
+                b
+            };
+            match crate::big::build(&d.big_kind, target, &mut pay_for) {
+                Some(r) => record = r,
+                None => record.value.clear(),
+            }
+            if last_first.is_some() {
+                first_hash = last_first;
+            }
+        }
         let mut tamper_na = false;
         if let Some(t) = &d.tamper {
             let addr_b = derived_key(&t.other).unwrap_or(d.rk);
@@ -288,6 +322,7 @@ impl World {
                 toks: vec![],
                 puts: vec![],
                 reads: 0,
+                got_local: false,
             },
         );
         if tamper_na {
@@ -310,7 +345,9 @@ impl World {
                 let _ = tx.send(self.store.contains_key(&key.to_vec()));
             }
             Some(Pending::Get(tx, key)) => {
-                let _ = tx.send(self.store.get(&key.to_vec()).cloned());
+                let got = self.store.get(&key.to_vec()).cloned();
+                inf.got_local |= got.is_some();
+                let _ = tx.send(got);
             }
             None => return false,
         }
